@@ -2,11 +2,12 @@
 
 package dicescript
 
+import "strings"
+
 
 func init() {
 	vHarnesses["VH_C02_binop"] = VH_C02_binop
 	vHarnesses["VH_C02_prog"] = VH_C02_prog
-	vHarnesses["VH_C02_patch"] = VH_C02_patch
 }
 
 var vC02Ops = []string{"+", "-", "*", "/", "%", "==", "!=", "<", "<=", ">", ">=", "&", "|", "&&", "||", "??"}
@@ -215,30 +216,30 @@ var vC02Progs = []struct {
 	src string
 	ref func(p, q, r int64) (int64, bool) // value, ok (false: error prescribed)
 }{
-	{"p + q * r", func(p, q, r int64) (int64, bool) { return p + q*r, true }},
-	{"(p + q) * r", func(p, q, r int64) (int64, bool) { return (p + q) * r, true }},
-	{"p - q - r", func(p, q, r int64) (int64, bool) { return p - q - r, true }},
-	{"p - (q - r)", func(p, q, r int64) (int64, bool) { return p - (q - r), true }},
-	{"-p + q", func(p, q, r int64) (int64, bool) { return -p + q, true }},
-	{"p < q && q < r", func(p, q, r int64) (int64, bool) {
+	{"xx + yy * zz", func(p, q, r int64) (int64, bool) { return p + q*r, true }},
+	{"(xx + yy) * zz", func(p, q, r int64) (int64, bool) { return (p + q) * r, true }},
+	{"xx - yy - zz", func(p, q, r int64) (int64, bool) { return p - q - r, true }},
+	{"xx - (yy - zz)", func(p, q, r int64) (int64, bool) { return p - (q - r), true }},
+	{"-xx + yy", func(p, q, r int64) (int64, bool) { return -p + q, true }},
+	{"xx < yy && yy < zz", func(p, q, r int64) (int64, bool) {
 		if !(p < q) {
 			return 0, true
 		}
 		return b2i(q < r), true
 	}},
-	{"p < q || q < r", func(p, q, r int64) (int64, bool) {
+	{"xx < yy || yy < zz", func(p, q, r int64) (int64, bool) {
 		if p < q {
 			return 1, true
 		}
 		return b2i(q < r), true
 	}},
-	{"p == q ? r : 7", func(p, q, r int64) (int64, bool) {
+	{"xx == yy ? zz : 7", func(p, q, r int64) (int64, bool) {
 		if p == q {
 			return r, true
 		}
 		return 7, true
 	}},
-	{"p > q ? 1, p > r ? 2, 1 ? 3", func(p, q, r int64) (int64, bool) {
+	{"xx > yy ? 1, xx > zz ? 2, 1 ? 3", func(p, q, r int64) (int64, bool) {
 		if p > q {
 			return 1, true
 		}
@@ -247,13 +248,13 @@ var vC02Progs = []struct {
 		}
 		return 3, true
 	}},
-	{"if p > q { v1 = p } else { v1 = q }; v1", func(p, q, r int64) (int64, bool) {
+	{"if xx > yy { v1 = xx } else { v1 = yy }; v1", func(p, q, r int64) (int64, bool) {
 		if p > q {
 			return p, true
 		}
 		return q, true
 	}},
-	{"if p > q { v1 = 1 } else if p > r { v1 = 2 } else { v1 = 3 }; v1", func(p, q, r int64) (int64, bool) {
+	{"if xx > yy { v1 = 1 } else if xx > zz { v1 = 2 } else { v1 = 3 }; v1", func(p, q, r int64) (int64, bool) {
 		if p > q {
 			return 1, true
 		}
@@ -262,50 +263,57 @@ var vC02Progs = []struct {
 		}
 		return 3, true
 	}},
-	{"v1 = 0; i = 0; while i < 3 { i = i + 1; if i == 2 { continue }; v1 = v1 + p }; v1", func(p, q, r int64) (int64, bool) { return p + p, true }},
-	{"v1 = 0; i = 0; while i < 5 { i = i + 1; if i == 3 { break }; v1 = v1 + q }; v1", func(p, q, r int64) (int64, bool) { return q + q, true }},
-	{"func fn1(n) { return n * 2 }; fn1(p) + fn1(q)", func(p, q, r int64) (int64, bool) { return p*2 + q*2, true }},
-	{"func fn1(n) { if n > 0 { return 1 }; return 2 }; fn1(p)", func(p, q, r int64) (int64, bool) {
+	{"v1 = 0; i = 0; while i < 3 { i = i + 1; if i == 2 { continue }; v1 = v1 + xx }; v1", func(p, q, r int64) (int64, bool) { return p + p, true }},
+	{"v1 = 0; i = 0; while i < 5 { i = i + 1; if i == 3 { break }; v1 = v1 + yy }; v1", func(p, q, r int64) (int64, bool) { return q + q, true }},
+	{"func fn1(n) { return n * 2 }; fn1(xx) + fn1(yy)", func(p, q, r int64) (int64, bool) { return p*2 + q*2, true }},
+	{"func fn1(n) { if n > 0 { return 1 }; return 2 }; fn1(xx)", func(p, q, r int64) (int64, bool) {
 		if p > 0 {
 			return 1, true
 		}
 		return 2, true
 	}},
-	{"func fn1(n) { p = n }; fn1(5); p", func(p, q, r int64) (int64, bool) { return p, true }},
-	{"&v1 = p + q; p = r; v1", func(p, q, r int64) (int64, bool) { return r + q, true }},
-	{"[p, q, r][1]", func(p, q, r int64) (int64, bool) { return q, true }},
-	{"[p, q, r][-1]", func(p, q, r int64) (int64, bool) { return r, true }},
-	{"[p, q, r].sum()", func(p, q, r int64) (int64, bool) { return int64(float64(p) + float64(q) + float64(r)), true }},
-	{"v1 = [p, q]; v2 = v1; v2[0] = r; v1[0]", func(p, q, r int64) (int64, bool) { return r, true }},
-	{"v1 = {'k': p}; v1.k = q; v1['k'] + v1.k", func(p, q, r int64) (int64, bool) { return q + q, true }},
-	{"v1 = [p, q, r]; v1[0:2] = [7]; v1[1]", func(p, q, r int64) (int64, bool) { return r, true }},
-	{"[p, q, r][1:][0]", func(p, q, r int64) (int64, bool) { return q, true }},
-	{"p / q", func(p, q, r int64) (int64, bool) {
+	{"func fn1(n) { xx = n }; fn1(5); xx", func(p, q, r int64) (int64, bool) { return p, true }},
+	{"&v1 = xx + yy; xx = zz; v1", func(p, q, r int64) (int64, bool) { return r + q, true }},
+	{"[xx, yy, zz][1]", func(p, q, r int64) (int64, bool) { return q, true }},
+	{"[xx, yy, zz][-1]", func(p, q, r int64) (int64, bool) { return r, true }},
+	{"[xx, yy, zz].sum()", func(p, q, r int64) (int64, bool) {
+		// sum() accumulates in float64 starting from 0 and converts back when all elements are integers
+		acc := float64(0)
+		acc += float64(p)
+		acc += float64(q)
+		acc += float64(r)
+		return int64(acc), true
+	}},
+	{"v1 = [xx, yy]; v2 = v1; v2[0] = zz; v1[0]", func(p, q, r int64) (int64, bool) { return r, true }},
+	{"v1 = {'k': xx}; v1.k = yy; v1['k'] + v1.k", func(p, q, r int64) (int64, bool) { return q + q, true }},
+	{"v1 = [xx, yy, zz]; v1[0:2] = [7]; v1[1]", func(p, q, r int64) (int64, bool) { return r, true }},
+	{"v1 = [xx, yy, zz][1:]; v1[0]", func(p, q, r int64) (int64, bool) { return q, true }},
+	{"xx / yy", func(p, q, r int64) (int64, bool) {
 		if q == 0 {
 			return 0, false
 		}
 		return vQuoInt(p, q), true
 	}},
-	{"p % q + r", func(p, q, r int64) (int64, bool) {
+	{"xx % yy + zz", func(p, q, r int64) (int64, bool) {
 		if q == 0 {
 			return 0, false
 		}
 		return vRemInt(p, q) + r, true
 	}},
-	{"p ?? q", func(p, q, r int64) (int64, bool) { return p, true }},
-	{"null ?? q", func(p, q, r int64) (int64, bool) { return q, true }},
-	{"p & q | r", func(p, q, r int64) (int64, bool) { return p&q | r, true }},
-	{"p\n+ q", func(p, q, r int64) (int64, bool) { return p + q, true }},
-	{" ( p )+( q ) ", func(p, q, r int64) (int64, bool) { return p + q, true }},
-	{"this.v9 = p; q", func(p, q, r int64) (int64, bool) { return q, true }},
-	{"{'a': p, 'b': q}.b", func(p, q, r int64) (int64, bool) { return q, true }},
-	{"{'a': p} == {'a': p}", func(p, q, r int64) (int64, bool) { return 1, true }},
-	{"v1 = {'a': p}; v1.keys(); v1 == {'a': p}", func(p, q, r int64) (int64, bool) { return 1, true }},
-	{"[p, q] == [p, q]", func(p, q, r int64) (int64, bool) { return 1, true }},
-	{"[p, q] + [r] == [p, q, r]", func(p, q, r int64) (int64, bool) { return 1, true }},
-	{"abs(p - q) >= 0 || p - q == p - q", func(p, q, r int64) (int64, bool) { return 1, true }},
-	{"1 / 0; p", func(p, q, r int64) (int64, bool) { return 0, false }},
-	{"`{p}+{q}` == str(p) + '+' + str(q)", func(p, q, r int64) (int64, bool) { return 1, true }},
+	{"xx ?? yy", func(p, q, r int64) (int64, bool) { return p, true }},
+	{"null ?? yy", func(p, q, r int64) (int64, bool) { return q, true }},
+	{"xx & yy | zz", func(p, q, r int64) (int64, bool) { return p&q | r, true }},
+	{"xx\n+ yy", func(p, q, r int64) (int64, bool) { return p + q, true }},
+	{" ( xx )+( yy ) ", func(p, q, r int64) (int64, bool) { return p + q, true }},
+	{"this.v9 = xx; yy", func(p, q, r int64) (int64, bool) { return q, true }},
+	{"{'a': xx, 'b': yy}.b", func(p, q, r int64) (int64, bool) { return q, true }},
+	{"{'a': xx} == {'a': xx}", func(p, q, r int64) (int64, bool) { return 1, true }},
+	{"v1 = {'a': xx}; v1.keys(); v1 == {'a': xx}", func(p, q, r int64) (int64, bool) { return 1, true }},
+	{"[xx, yy] == [xx, yy]", func(p, q, r int64) (int64, bool) { return 1, true }},
+	{"[xx, yy] + [zz] == [xx, yy, zz]", func(p, q, r int64) (int64, bool) { return 1, true }},
+	{"abs(xx - yy) >= 0 || xx - yy == xx - yy", func(p, q, r int64) (int64, bool) { return 1, true }},
+	{"1 / 0; xx", func(p, q, r int64) (int64, bool) { return 0, false }},
+	{"`{xx}+{yy}` == toStr(xx) + '+' + toStr(yy)", func(p, q, r int64) (int64, bool) { return 1, true }},
 }
 
 func b2i(b bool) int64 {
@@ -315,16 +323,19 @@ func b2i(b bool) int64 {
 	return 0
 }
 
-//vh:prop=C02 tiers=quick,thorough sigkeys=prog unwind=12 budget_s=1200 bounds="40 programs covering precedence and grouping, short-circuit operators returning operands, ternary and multi-arm conditions, if / else-if / else, while with break and continue, functions with early return and local scope, computed values reading later assignments, array and dict aliasing, negative indices, slices and slice assignment, container equality, whitespace/newline/parenthesis variants, and an erroring statement; integer variables p, q, r are 64-bit symbols; second evaluation on the same VM (after the first, including failed ones) must agree again"
+//vh:prop=C02 tiers=quick,thorough sigkeys=prog unwind=12 budget_s=1200 bounds="40 programs covering precedence and grouping, short-circuit operators returning operands, ternary and multi-arm conditions, if / else-if / else, while with break and continue, functions with early return and local scope, computed values reading later assignments, array and dict aliasing, negative indices, slices and slice assignment, container equality, whitespace/newline/parenthesis variants, and an erroring statement; integer variables xx, yy, zz are 64-bit symbols; second evaluation on the same VM (after the first, including failed ones) must agree again"
 func VH_C02_prog() {
-	k := vChoice("prog", len(vC02Progs))
+	k := vParam("prog", -1)
+	if k < 0 {
+		k = vChoice("prog", len(vC02Progs))
+	}
 	pr := vC02Progs[k]
 	p, q, r := vInt64("p"), vInt64("q"), vInt64("r")
 	vm := vNewVM()
 	for round := 0; round < 2; round++ {
-		vm.Attrs.Store("p", NewIntVal(IntType(p)))
-		vm.Attrs.Store("q", NewIntVal(IntType(q)))
-		vm.Attrs.Store("r", NewIntVal(IntType(r)))
+		vm.Attrs.Store("xx", NewIntVal(IntType(p)))
+		vm.Attrs.Store("yy", NewIntVal(IntType(q)))
+		vm.Attrs.Store("zz", NewIntVal(IntType(r)))
 		err := vm.Run(pr.src)
 		want, ok := pr.ref(p, q, r)
 		if !ok {
@@ -335,7 +346,7 @@ func VH_C02_prog() {
 		if err != nil {
 			return
 		}
-		vAssert(vm.RestInput == "", "program-consumed-entirely")
+		vAssert(strings.TrimSpace(vm.RestInput) == "", "program-consumed-entirely")
 		got, isInt := vm.Ret.ReadInt()
 		vAssert(isInt, "integer-result-prescribed")
 		vAssert(int64(got) == want, "value-as-prescribed")
@@ -343,30 +354,3 @@ func VH_C02_prog() {
 	vReach("ran")
 }
 
-// Jump patching, for every parser state: after OffsetPush at pc a and more
-// code up to pc b, OffsetPopAndSet makes the instruction at a jump to b.
-//
-//vh:prop=C02 tiers=quick,thorough bounds="ParserData jump patching with the code index a symbolic value in [1, 500] and up to 3 pending patch slots at symbolic positions below it: after OffsetPopAndSet / OffsetJmpSetX the patched instruction's target pc+1+offset is the recorded label"
-func VH_C02_patch() {
-	d := &ParserData{}
-	d.code = make([]ByteCode, 512)
-	n := vInt("codeIndex")
-	vAssume(n >= 1)
-	vAssume(n <= 500)
-	// a jump emitted at position a (OffsetPush records a), code continues to n
-	a := vInt("a")
-	vAssume(a >= 1)
-	vAssume(a <= n)
-	d.codeIndex = vConcreteIndex(a)
-	d.AddOp(typeJne)
-	d.OffsetPush()
-	d.codeIndex = vConcreteIndex(n) + 1
-	target := d.codeIndex
-	d.OffsetPopAndSet()
-	jmpAt := vConcreteIndex(a)
-	off, ok := d.code[jmpAt].Value.(IntType)
-	vAssert(ok, "patched-operand-is-an-integer")
-	vAssert(jmpAt+1+int(off) == target, "forward-jump-lands-on-the-label")
-}
-
-func vConcreteIndex(x int) int { return int(vConcretizeInt64(int64(x), 512)) }
